@@ -83,6 +83,21 @@ def explore(w, report, cases, prop, harness_re, nmax, per_job_timeout, family, n
         pkgs = ",".join("./" + c.harness_rel for c in part)
         res = run_engine(w, pkgs=pkgs, harness=harness_re, nmin=nmin, nmax=nmax, timeout_s=per_job_timeout,
                          sample_every=sample_every, max_steps=max_steps, wall_limit=wall_limit, solver=solver)
+        if res.get("errors") and not res.get("jobs"):
+            # a generated package that does not type-check stops the whole load: leave those cases out
+            # (reported as inconclusive; C04 turns them into violations) and explore the rest
+            bad = set(re.findall(r"/h/([A-Za-z0-9_.+-]+)/(?:p|a|b|hx)/", " ".join(res["errors"])))
+            keep = [c for c in part if c.id not in bad]
+            if bad and len(keep) < len(part):
+                for cid in sorted(bad):
+                    msg = next((e for e in res["errors"] if "/h/%s/" % cid in e), "")
+                    report.inconclusive.append("%s: generated code does not type-check: %s" % (cid, msg[-200:]))
+                    report.cov.setdefault("packages_not_type_checking", []).append(cid)
+                if keep:
+                    res = run_engine(w, pkgs=",".join("./" + c.harness_rel for c in keep), harness=harness_re, nmin=nmin, nmax=nmax,
+                                     timeout_s=per_job_timeout, sample_every=sample_every, max_steps=max_steps, wall_limit=wall_limit, solver=solver)
+                else:
+                    continue
         if res.get("errors"):
             report.inconclusive.append("engine: " + "; ".join(res["errors"])[:600])
             if not res.get("jobs"):
